@@ -50,7 +50,10 @@ impl<'a> ProjectionStrategy for SelectionProjection<'a> {
         } = &self.plan.command
         {
             let payload_set: HashSet<String> = all_payload.into_iter().collect();
-            let projected: HashSet<String> = list
+            // Keep the RETURN list's own order (ProjectionColumns de-duplicates). Collecting into a
+            // HashSet here made the column order differ from one call to the next, so the schema
+            // a flow announced and the rows its source produced could disagree.
+            let projected: Vec<String> = list
                 .iter()
                 .filter(|f| {
                     ProjectionContext::is_core_field(f) || payload_set.contains(&f.to_string())
